@@ -21,7 +21,7 @@ Rec == ndJsonDeserialize(IOEnv.TRACE)
 VARIABLE l
 Bad(what) == PrintT(<<"BAD", l, what>>)
 
-M == INSTANCE MacroModel WITH MinusFusion <- TRUE, ColonFusion <- TRUE, FuseAnyLiteral <- FALSE, DotAlways <- FALSE
+M == INSTANCE MacroModel WITH MinusFusion <- TRUE, ColonFusion <- TRUE, FuseAnyLiteral <- FALSE, RawStringNames <- TRUE, DotAlways <- FALSE
 
 SiteNames(p) == {s[1] : s \in M!FusionSites(p)}
 
